@@ -1373,3 +1373,59 @@ func checkHelpAfterWidening(c *Ctx, n int, prop string) {
 		})
 	}
 }
+
+// checkC12DefaultChanged: Option.Default is assigned after a call and the values are written WITHOUT another call
+// between: whether an option "equals its default" is judged by the default declared NOW.  A fresh parser over the
+// same declaration (the same Default assigned) reads the text: every option has the value it was written from.
+func checkC12DefaultChanged(c *Ctx, n int) {
+	r := c.Rng
+	for i := 0; i < n; i++ {
+		root := &StructDesc{Fields: []FieldDesc{
+			{Name: "V", Exported: true, Kind: "v", Ty: "bool", Tag: `short:"v"`},
+			{Name: "Port", Exported: true, Kind: "v", Ty: "int", Tag: `long:"port" default:"8080"`},
+			{Name: "Peers", Exported: true, Kind: "v", Ty: "Lstr", Tag: `long:"peer" default:"a" default:"b"`}}}
+		bits := []uint{0, 8, 2 | 4, 2 | 4 | 8, 2}[r.Intn(5)] // IniNone, comments, commented defaults (+comments), defaults included
+		m1 := BuildOp{Kind: "setopt", Target: 1, Gi: 1, Oi: 1, Attr: "default", Vals: []string{hx("9090")}}
+		m2 := BuildOp{Kind: "setopt", Target: 1, Gi: 1, Oi: 2, Attr: "default", Vals: []string{hx("x")}}
+		a := &Case{Name: "app", NsDelim: ".", EnvNsDelim: "_"}
+		a.Build = []BuildOp{{Kind: "addgroup", Target: 1, Short: "Application Options", Struct: root}}
+		a.Ops = []Op{{Kind: "parse", Args: []string{"-v"}}, {Kind: "build", B: &m1}, {Kind: "build", B: &m2}, {Kind: "iniwrite", Bits: bits}}
+		a.Description = describeOps(a)
+		var resA *CaseResult
+		c.RunCases([]*Case{a}, func(cr *CaseResult) { resA = cr; c.classifyCase(cr) })
+		if resA == nil || resA.Real == nil || resA.Real.dead {
+			continue
+		}
+		iniw := firstLine(resA.Impl, "INIW ")
+		if iniw == "" {
+			continue
+		}
+		text, _ := unhx(strings.Fields(iniw)[1])
+		b := &Case{Name: "app", NsDelim: ".", EnvNsDelim: "_"}
+		b.Build = []BuildOp{{Kind: "addgroup", Target: 1, Short: "Application Options", Struct: root}, m1, m2}
+		b.Ops = []Op{{Kind: "iniparse", Text: text}, {Kind: "parse", Args: []string{}}}
+		b.Description = describeOps(b)
+		c.RunCases([]*Case{b}, func(cr *CaseResult) {
+			c.classifyCase(cr)
+			if cr.Real == nil || cr.Real.dead {
+				return
+			}
+			c.Class(fmt.Sprintf("c12/default-changed: write-options=%d", bits))
+			port, peers := "?", "?"
+			if fr, ok := cr.Real.fields["Port"]; ok {
+				port = fmt.Sprint(fr.val.Interface())
+			}
+			if fr, ok := cr.Real.fields["Peers"]; ok {
+				peers = fmt.Sprint(fr.val.Interface())
+			}
+			got := fmt.Sprintf("Port=%s Peers=%s", port, peers)
+			want := "Port=8080 Peers=[a b]"
+			in := map[string]interface{}{"write_case": a.Description, "written_text": text, "read_case": b.Description, "ini_options": bits}
+			if got != want {
+				in["case_file_write"] = c.saveCase(resA)
+				in["case_file_read"] = c.saveCase(cr)
+			}
+			c.Check("round-trip-reproduces-value-when-the-default-was-assigned-after-a-call", got == want, "C12:default-changed", in, got, want)
+		})
+	}
+}
